@@ -62,7 +62,14 @@ impl State for S {
                 let mut reader: BTreeSet<u64> = map.keys().copied().collect();
                 reader.insert(0);
                 reader.insert(1);
-                match nervusdb_storage::vacuum::verif_reachable_pages(e.ndb(), e.wal()) {
+                // vacuum's mark phase opens the page file itself; the engine's handle holds the exclusive
+                // lock (C10 fix), so close the engine around the call and open it again afterwards
+                e.close();
+                let marked = nervusdb_storage::vacuum::verif_reachable_pages(e.ndb(), e.wal());
+                if e.open().is_err() {
+                    return "err".into();
+                }
+                match marked {
                     Ok(v) => {
                         let vs: BTreeSet<u64> = v.into_iter().collect();
                         let missing: Vec<u64> = reader.difference(&vs).copied().collect();
